@@ -39,4 +39,46 @@ def seqSpec (err : α) (leaves : List (St α)) (xs : List α) : List α :=
 def seqLogs (err : α) (leaves : List (St α)) (xs : List α) : List (List α) :=
   (leaves.foldl (fun (acc : List (List α) × List α) st => (acc.1 ++ [acc.2], leafOut err st acc.2)) ([], xs)).1
 
+/-! ### stages defined by the harness itself (C01 must not depend on any library filter being right) -/
+
+/-- simple, mutually non-commuting stateful stages: running sum plus offset, affine map, one-sample lag,
+running maximum -/
+inductive Own (α : Type) where
+  | acc (sum a : α)
+  | affine (a b : α)
+  | lag (prev : α)
+  | runMax (m : Option α)
+
+def Own.step : Own α → α → Own α × α
+  | .acc s a, x => (.acc (s + x) a, s + x + a)
+  | .affine a b, x => (.affine a b, a * x + b)
+  | .lag p, x => (.lag x, p)
+  | .runMax m, x =>
+    let r := match m with | none => x | some m => if Classify.Cmp.gt x m then x else m
+    (.runMax (some r), r)
+
+def ownStage (o : Own α) : Pipes.Stage α := { σ := Own α, step := Own.step, st := o }
+
+/-- a leaf of a pipe: a library filter (registry model) or a harness-defined stage -/
+inductive Leaf (α : Type) where
+  | lib (st : St α)
+  | own (o : Own α)
+
+def Leaf.stage (err : α) : Leaf α → Pipes.Stage α
+  | .lib st => stageOf err st
+  | .own o => ownStage o
+
+/-- the whole output stream of one leaf fed a whole input stream -/
+def Leaf.out (err : α) : Leaf α → List α → List α
+  | .lib st, xs => leafOut err st xs
+  | .own o, xs => (xs.foldl (fun (acc : Own α × List α) x => ((acc.1.step x).1, acc.2 ++ [(acc.1.step x).2])) (o, [])).2
+
+/-- specification of a pipe: feed the WHOLE stream through the leaves one after the other -/
+def seqSpecL (err : α) (leaves : List (Leaf α)) (xs : List α) : List α :=
+  leaves.foldl (fun stream l => l.out err stream) xs
+
+/-- the inputs each leaf is invoked with, in pipeline order -/
+def seqLogsL (err : α) (leaves : List (Leaf α)) (xs : List α) : List (List α) :=
+  (leaves.foldl (fun (acc : List (List α) × List α) l => (acc.1 ++ [acc.2], l.out err acc.2)) ([], xs)).1
+
 end SignaloModel.PipeRegistry
